@@ -267,10 +267,97 @@ def r02_6(chk, P):
     return n
 
 
+def r02_7(chk, P):
+    chk.rule('R02.7', 'a table with one slot per USED codebook entry is indexed by the count of used entries so far: in sharedbook.c, '
+             'wherever an int-pointer parameter that is tested for NULL (the sort index / sparse map handed down by '
+             'vorbis_book_init_decode, allocated with one element per entry whose codeword length is non-zero) is subscripted, '
+             'the subscript is a local that starts at 0 and is advanced only by ++, once per iteration of the entry loop, under '
+             'a test of the entry\'s codeword length -- so it is below the number of used entries at every use.  Indexing it '
+             'with the entry number itself reads past the table for every sparse book')
+    import cfg as _cfg
+    n = 0
+    for F in P.functions():
+        if not F.file.endswith('sharedbook.c'):
+            continue
+        ips = [p_ for p_ in F.params if p_.get('t', '').replace(' ', '') in ('int*', 'long*')]
+        for p_ in ips:
+            subs = []
+            for e in F.nodes('sub'):
+                b = F.ex[F.strip_casts(F.ex[e]['c'][0])]
+                if b['k'] == 'ref' and b['decl'].get('id') == p_['id']:
+                    subs.append(e)
+            nulltest = any(F.ex[t.get('cond')]['k'] == 'ref' and F.ex[t['cond']]['decl'].get('id') == p_['id']
+                           for t in (blk.get('term') or {} for blk in F.blocks.values()) if t.get('cond') is not None)
+            if not subs or not nulltest:
+                continue
+            loops = _cfg.loops(F)
+            for e in sorted(subs, key=lambda x: F.ex[x].get('loc', [0, 0])):
+                ix = F.ex[F.strip_casts(F.ex[e]['c'][1])]
+                ok, why = False, ''
+                if ix['k'] == 'ref' and ix['decl'].get('kind') == 'var':
+                    vid = ix['decl']['id']
+                    mods, zero_init = [], False
+                    for q in F.pos:
+                        nd = F.ex[q]
+                        if nd['k'] == 'decl':
+                            for v in nd['vars']:
+                                if v.get('id') == vid and v.get('init') is not None and common.const_val(F, v['init']) == 0:
+                                    zero_init = True
+                        elif nd['k'] == 'assign':
+                            l = F.ex[F.strip_casts(nd['c'][0])]
+                            if l['k'] == 'ref' and l['decl'].get('id') == vid:
+                                mods.append((q, 'assign'))
+                        elif nd['k'] == 'un' and nd['op'] in ('pre++', 'post++', 'pre--', 'post--'):
+                            l = F.ex[F.strip_casts(nd['c'][0])]
+                            if l['k'] == 'ref' and l['decl'].get('id') == vid:
+                                mods.append((q, nd['op']))
+                    incs = [q for q, k_ in mods if k_ in ('pre++', 'post++')]
+                    other = [q for q, k_ in mods if k_ not in ('pre++', 'post++')]
+                    # with the table present (the only case in which the subscript is evaluated) every increment lies behind
+                    # the true edge of a codeword-length test: it is unreachable once those edges are cut
+                    def succs(b):
+                        blk = F.blocks[b]
+                        t = blk.get('term') or {}
+                        c = t.get('cond')
+                        ss = list(blk['succs'])
+                        if c is not None and len(ss) == 2:
+                            cn = F.ex[F.strip_casts(c)]
+                            if cn['k'] == 'ref' and cn['decl'].get('id') == p_['id']:
+                                return [ss[0]]
+                            if cn['k'] == 'un' and cn['op'] == '!' and F.ex[F.strip_casts(cn['c'][0])].get('decl', {}).get('id') == p_['id']:
+                                return [ss[1]]
+                            if any(F.ex[x]['k'] == 'member' and F.ex[x]['field'] == 'lengthlist' for x in F.walk(c)):
+                                return [ss[1]]
+                        return ss
+                    seen, st = set(), [F.entry]
+                    while st:
+                        b_ = st.pop()
+                        if b_ is None or b_ in seen:
+                            continue
+                        seen.add(b_)
+                        st += succs(b_)
+                    guarded = all(F.pos[q][0] not in seen for q in incs)
+                    # once per entry-loop iteration: the increment is not nested deeper than the subscripted use's guard loop
+                    depth = lambda q: sum(1 for h, body in loops.items() if F.pos[q][0] in body)
+                    once = all(depth(q) <= 1 for q in incs)
+                    ok = zero_init and not other and incs and guarded and once
+                    why = (f'{ix["decl"]["name"]}: starts at 0, advanced by {len(incs)} `++` under a codeword-length test, once per entry' if ok else
+                           f'{ix["decl"]["name"]} is not a used-entry counter (zero-initialised: {zero_init}; other modifications: '
+                           f'{len(other)}; increments under a codeword-length test: {guarded}; once per entry: {once}): it can reach '
+                           'the number of entries, the table has one slot per used entry')
+                else:
+                    why = f'subscript `{F.s(F.ex[e]["c"][1])}` is not a counter of used entries'
+                n += 1
+                chk.ob('R02.7', F.name, f'used-entry-table-indexed-by-used-count:{p_["name"]}@{F.loc(e)}', ok, F.where(e), why)
+    return n
+
+
 # ---------------------------------------------------------------------------------------------------------
 def run(chk, P):
     r02_6(chk, P)
     chk.floor('R02.6', 1)
+    r02_7(chk, P)
+    chk.floor('R02.7', 2)
     D = k4dec.decode_driver(P)
     r02_1(chk, P, D)
     chk.floor('R02.1', 45)
